@@ -87,6 +87,7 @@ Section Mon.
   Definition cf (v : tview) (n : nat) : bool * bool := nth n (tv_cf v) (false, false).
   Definition under_alarm (n : nat) : bool :=
     existsb (fun a => match n_kind (nd p a) with KAlarm => true | _ => false end) (ancestors p n).
+  Definition is_alarm (n : nat) : bool := match n_kind (nd p n) with KAlarm => true | _ => false end.
   Definition watches : list nat :=
     filter (fun n => match n_kind (nd p n) with KWatch | KAlarm => negb (under_alarm n) | _ => false end) (seq 0 (length p)).
   (* a request is carried out exactly when the run log offered it *)
@@ -96,8 +97,9 @@ Section Mon.
   Definition cancelled_watch_ok (u v : tview) : bool :=
     forallb (fun n => negb (fst (cf u n) && negb (activated (vst u n)))
                       || (negb (activated (vst v n))
-                          && forallb (fun c => negb (started (vst v c)) || started (vst u c)) (n_children (nd p n)))) watches.
-  Definition is_alarm (n : nat) : bool := match n_kind (nd p n) with KAlarm => true | _ => false end.
+                          (* body lines: for a Watch only -- a Watch / Alarm nested in an Alarm body keeps its own interrupt
+                             from an earlier invocation of that body, which starts it independently (C05's known finding) *)
+                          && (is_alarm n || forallb (fun c => negb (started (vst v c)) || started (vst u c)) (n_children (nd p n))))) watches.
   Definition in_ended (v : tview) (n : nat) : bool :=
     existsb (fun a => is_block p a && block_ended (vst v a)) (ancestors p n).
   (* effects of the requests of this tick (u: the view before, v: the view after, rest: the following views).
